@@ -129,7 +129,8 @@ PLANS = {
              "padding patterns at both ends, all-padding, maximal lengths, every field's alignment"),
     "C14": dict(
         mc=[mc("MC_Layouts", "MC_Layouts.cfg")],
-        families=[fam("varlen", F.fam_varlen), fam("types", F.fam_types)],
+        families=[fam("varlen", F.fam_varlen, builds=("std", "none")), fam("types", F.fam_types)],
+        builds=("std", "none"),
         rule="every supported type x every byte length 0..max+8 x contents; armored character counts x fill around legal lengths"),
     "C15": dict(
         mc=[mc("MC_Layouts", "MC_Layouts.cfg")],
